@@ -582,6 +582,11 @@ def t_list(rng, gid, shared=None):
         single = maybe(rng, 0.5)
         same = rng.randint(1, 3)
         sizes = [same if (single and maybe(rng, 0.9)) else rng.randint(1, 3) for _ in range(ngroups)]
+        nogroup = maybe(rng, 0.25)
+        if nogroup:
+            # no grouping at all: every subgrader receives one box
+            ngroups = max(ngroups, 2)
+            sizes = [1] * ngroups
         grouping = []
         for gnum in range(1, ngroups + 1):
             grouping += [gnum] * sizes[gnum - 1]
@@ -595,12 +600,15 @@ def t_list(rng, gid, shared=None):
             kinds = [cfg['subgraders'] is inner] * 5
             nans = max(1, ngroups + pick(rng, [0, 0, 1, -1, -1]))
         else:
-            kinds = [(sizes[k % ngroups] > 1) != maybe(rng, 0.1)
+            kinds = [(sizes[k % ngroups] > 1) != maybe(rng, 0.4 if nogroup else 0.1)
                      for k in range(max(1, ngroups + pick(rng, [0, 0, 0, 0, 0, 1, -1])))]
             cfg['subgraders'] = [inner if k else plain for k in kinds]
             cfg['ordered'] = True
             nans = max(1, len(kinds) + pick(rng, [0, 0, 0, 0, 0, 0, 1, -1]))
-        cfg['grouping'] = grouping
+        if not nogroup:
+            cfg['grouping'] = grouping
+        else:
+            grouping = list(range(1, ngroups + 1))
         cfg['answers'] = []
         for k in range(nans):
             size = sizes[k % ngroups]
